@@ -53,3 +53,100 @@ pub fn first_paint(stream: &str) -> &str {
         None => stream,
     }
 }
+
+use crate::html::{self, Tree};
+
+/// one out-of-order chunk: `<template id="{id}f">content</template><script>…</script>`
+struct Chunk {
+    id: String,
+    content: String,
+    replace: bool,
+}
+
+fn split_chunks(stream: &str) -> Option<(String, Vec<Chunk>)> {
+    let first = first_paint(stream).to_string();
+    let mut rest = &stream[first.len()..];
+    let mut chunks = vec![];
+    while !rest.is_empty() {
+        let r = rest.strip_prefix("<template id=\"")?;
+        let q = r.find("\">")?;
+        let tid = &r[..q];
+        let r2 = &r[q + 2..];
+        let e = r2.find("</template>")?;
+        let content = &r2[..e];
+        let r3 = &r2[e + "</template>".len()..];
+        let r3 = r3.strip_prefix("<script")?;
+        let g = r3.find('>')?;
+        let r3 = &r3[g + 1..];
+        let s = r3.find("</script>")?;
+        let script = &r3[..s];
+        rest = &r3[s + "</script>".len()..];
+        let a = script.find("let id = \"")?;
+        let after = &script[a + 10..];
+        let b = after.find('"')?;
+        let id = &after[..b];
+        if tid != format!("{id}f") {
+            return None;
+        }
+        chunks.push(Chunk { id: id.to_string(), content: content.to_string(), replace: script.contains("range.deleteContents()") });
+    }
+    Some((first, chunks))
+}
+
+/// what the chunk's script does, on the DOM: the nodes from the `s-{id}o` comment up to (not including)
+/// the `s-{id}c` comment are deleted, the template's nodes inserted before it, the comment removed
+fn apply_chunk(nodes: &mut Vec<Tree>, open: &str, close: &str, tpl: &[Tree], replace: bool) -> bool {
+    let po = nodes.iter().position(|n| matches!(n, Tree::Comment(c) if c == open));
+    let pc = nodes.iter().position(|n| matches!(n, Tree::Comment(c) if c == close));
+    if let (Some(po), Some(pc)) = (po, pc) {
+        if po < pc {
+            if replace {
+                nodes.splice(po..=pc, tpl.iter().cloned());
+            } else {
+                nodes.remove(pc);
+                nodes.remove(po);
+            }
+            return true;
+        }
+    }
+    for n in nodes.iter_mut() {
+        if let Tree::Elem { kids, .. } = n {
+            if apply_chunk(kids, open, close, tpl, replace) {
+                return true;
+            }
+        }
+    }
+    false
+}
+
+/// the settled document of an out-of-order stream, as a browser builds it: the first paint and every
+/// `<template>` are parsed on their own, and the scripts move *nodes* (nothing is re-parsed, so a text
+/// `<` from one chunk can never join text from another into a tag)
+pub fn settle(stream: &str) -> Option<Vec<Tree>> {
+    let (first, chunks) = split_chunks(stream)?;
+    // a fallback that a later chunk deletes is judged with the first paint (the whole first chunk is
+    // parsed there); here its text is dropped up front, so that a fallback outside the parser subset
+    // (a CR, say) does not hide the settled document as well
+    let gone: Vec<(String, String)> =
+        chunks.iter().filter(|c| c.replace).map(|c| (format!("<!--s-{}o-->", c.id), format!("<!--s-{}c-->", c.id))).collect();
+    let blank = |text: &str| -> String {
+        let mut t = text.to_string();
+        for (o, c) in &gone {
+            if let Some(po) = t.find(o.as_str()) {
+                let from = po + o.len();
+                if let Some(pc) = t[from..].find(c.as_str()) {
+                    t.replace_range(from..from + pc, "");
+                }
+            }
+        }
+        t
+    };
+    let mut doc = html::parse(&blank(&first))?;
+    for c in &chunks {
+        let tpl = html::parse(&blank(&c.content))?;
+        if !apply_chunk(&mut doc, &format!("s-{}o", c.id), &format!("s-{}c", c.id), &tpl, c.replace) {
+            return None;
+        }
+    }
+    Some(doc)
+}
